@@ -881,6 +881,50 @@ def flow_network_details(ctx, rid):
     else:
         ctx.bad(o, "the in-arc filter at %s keeps the arcs WITHOUT flow and skips those with flow: no tour is decoded from the circulation" % verdict[1].line(),
                 loc=verdict[1].line())
+    # the decoder also walks the END depots: flow into an end depot tells where the tour ends (from_tours would pick the nearest one)
+    o = ctx.ob("%s.decoding-visits-end-depots" % rid, "T12", SFVT, "the decoding loop handles end-depot nodes (the end depot of a tour is the one the flow chose)")
+    ined = [c for c in fd.body.calls() if "inedges" in (c.callee or "")]
+    if not ined:
+        ctx.undecided(o, "decoding loop not recognised")
+    else:
+        # the body of the decoding loop: the innermost loop that contains the in-arc walk, up to that walk
+        reach_ined = set()
+        best = None
+        for nc, entry in loops_of(fd):
+            seen_, wl_ = set(), [entry]
+            while wl_:
+                b_ = wl_.pop()
+                if b_ in seen_ or b_ == nc.bb:
+                    continue
+                seen_.add(b_)
+                wl_.extend(fd.cfg.succ[b_])
+            if ined[0].bb in seen_ and (best is None or len(seen_) < len(best)):
+                best = seen_
+        if best is not None:
+            reach_ined = {b for b in best if ined[0].bb in fd.cfg.reachable_from(b) and not fd.cfg.dominates(ined[0].bb, b)}
+        hits = 0
+        kinds = set()
+        for ins in fd.body.instrs():
+            if ins.bb not in reach_ined or ins.kind not in ("assign", "call"):
+                continue
+            for op in list(ins.ops) + list(ins.args):
+                if op.place is not None:
+                    for pp in op.place.proj:
+                        if pp["k"] == "downcast" and pp.get("v") in ("EndDepot", "StartDepot", "Service", "Maintenance"):
+                            kinds.add(pp["v"])
+        # only the match in front of the in-arc walk counts: it must mention EndDepot if it mentions node kinds at all
+        if "EndDepot" in kinds:
+            ctx.ok(o, "node kinds handled before the in-arc walk: %s" % sorted(kinds))
+        elif kinds or True:
+            # kinds may be matched without binding a payload: fall back to the construction of TripNode::Depot from an end depot's index
+            dep = [i for i in fd.body.instrs() if i.kind == "assign" and i.rv_kind() == "agg" and (i.rv.get("adt") or "").endswith("TripNode")
+                   and i.rv.get("v") == "Depot" and i.bb in reach_ined]
+            if dep:
+                ctx.ok(o, "TripNode::Depot is built inside the decoding loop")
+            else:
+                ctx.bad(o, "the decoding loop never maps an end-depot node to its flow node: the flow into end depots is ignored and every tour is "
+                        "closed with the nearest end depot instead of the one the circulation chose (depot balance and costs differ from the optimum)",
+                        loc=ined[0].line())
     con = [e for e in edges if e.role == "connection"]
     if len(con) == 1:
         e = con[0]
@@ -1182,7 +1226,11 @@ def tour_formulas(ctx, rid):
             continue
         ch = direct_chain(fd, cs[0].args[1])
         names = {x.split("::")[-1] for x in ch}
-        if other in names and want not in names:
+        top = shape.normalise(shape.expr(fd, cs[0].args[1]))
+        if top[0] == "bin" and want in names:
+            ctx.bad(o, "%s is asked relative to %s: the reference is shifted away from the node's %s, so nodes inside the shift are "
+                    "wrongly classified before can_reach is asked" % (helper, shape.show(top)[:80], want), loc=cs[0].line())
+        elif other in names and want not in names:
             ctx.bad(o, "%s is asked relative to the node's %s: nodes that overlap the given node are treated as connectable (or connectable ones "
                     "as conflicting)" % (helper, other), loc=cs[0].line())
         elif want in names:
